@@ -23,8 +23,11 @@ LT = {"": 0, "colours": 1, "colour": 2, "dof": 3, "null": 4}
 # directive kinds of the model
 D_OMP_PARALLEL, D_OMP_DO, D_OMP_PARALLEL_DO, D_ACC_LOOP, D_ACC_PARALLEL, D_ACC_KERNELS, D_OTHER = range(7)
 # transformations of the model (protocol ids)
-TRANS = ["colour", "omp_parallel_do", "omp_do", "omp_parallel", "acc_loop", "acc_parallel", "acc_kernels"]
-LOOP_TRANS = {"colour", "omp_parallel_do", "omp_do", "acc_loop"}
+TRANS = ["colour", "omp_parallel_do", "omp_do", "omp_parallel", "acc_loop", "acc_parallel", "acc_kernels",
+         "gen_omp_do", "gen_omp_parallel_do"]
+LOOP_TRANS = {"colour", "omp_parallel_do", "omp_do", "acc_loop", "gen_omp_do", "gen_omp_parallel_do"}
+PAR_LOOP_TRANS = ["omp_parallel_do", "omp_do", "acc_loop", "gen_omp_do", "gen_omp_parallel_do"]
+STENCILS = ["cross", "region", "x1d", "y1d", "xory1d", "cross2d"]
 
 
 def fs_id(name):
@@ -52,7 +55,11 @@ def kernel_source(k):
     lines = []
     for a in k["args"]:
         if a[0] == "field":
-            lines.append(f"arg_type(gh_field, gh_real, {GH[a[1]]}, {a[2]})")
+            sten = a[3] if len(a) > 3 and a[3] else None
+            vec = a[5] if len(a) > 5 and a[5] else 1
+            fld = "gh_field" if vec == 1 else f"gh_field*{vec}"
+            tail = f", stencil({sten})" if sten else ""
+            lines.append(f"arg_type({fld}, gh_real, {GH[a[1]]}, {a[2]}{tail})")
         elif a[0] == "op":
             lines.append(f"arg_type(gh_operator, gh_real, {GH[a[1]]}, {a[2]}, {a[3]})")
         else:
@@ -85,6 +92,7 @@ def alg_source(kernels, calls):
     every call shares `fshare` when possible?  No: keep all actual arguments distinct per
     (space) so that halo exchanges between loops are produced in a varied way."""
     uses, decls, stmts = [], [], []
+    vecs = {}
     nf = no = 0
     used_k = set()
     for c in calls:
@@ -105,7 +113,19 @@ def alg_source(kernels, calls):
                 return name
             for i, a in enumerate(k["args"]):
                 if a[0] == "field":
-                    actual.append(fresh("f_" + a[2]))
+                    vec = a[5] if len(a) > 5 and a[5] else 1
+                    fname = fresh("f_" + a[2] + (f"_v{vec}" if vec > 1 else ""))
+                    actual.append(fname)
+                    if vec > 1:
+                        vecs[fname] = vec
+                    if len(a) > 3 and a[3]:
+                        # stencil extent (variable or literal) and, for xory1d, a direction
+                        if len(a) > 4 and a[4] == "literal":
+                            actual.append("2")
+                        else:
+                            actual.append(fresh("ext_" + fname))
+                        if a[3] == "xory1d":
+                            actual.append("x_direction" if (len(a) > 4 and a[4] == "literal") else fresh("dir_" + fname))
                 elif a[0] == "op":
                     actual.append(fresh(f"op_{a[2]}_{a[3]}"))
                 elif a[1] == "SUM":
@@ -122,15 +142,21 @@ def alg_source(kernels, calls):
                 names.add(("field", tok))
             elif tok.startswith("op_"):
                 names.add(("op", tok))
-    fl = sorted(t for k, t in names if k == "field")
+            elif tok.startswith("ext_") or tok.startswith("dir_"):
+                names.add(("int", tok))
+    fl = sorted(t + (f"({vecs[t]})" if t in vecs else "") for k, t in names if k == "field")
     ol = sorted(t for k, t in names if k == "op")
+    il = sorted(t for k, t in names if k == "int")
     if fl:
         decls.append("  type(field_type) :: " + ", ".join(fl))
+    if il:
+        decls.append("  integer(i_def) :: " + ", ".join(il))
     if ol:
         decls.append("  type(operator_type) :: " + ", ".join(ol))
     body = ", &\n       ".join(stmts)
     return f"""program c23_alg
-  use constants_mod, only: r_def
+  use constants_mod, only: r_def, i_def
+  use flux_direction_mod, only: x_direction
   use field_mod, only: field_type
   use operator_mod, only: operator_type
 {chr(10).join(uses)}
@@ -170,6 +196,108 @@ def parse_invoke(workdir, kernels, calls, tag):
         f.write(alg_source(kernels, calls))
     _, info = parse(alg, api="dynamo0.3", kernel_paths=[d])
     return info
+
+
+def test_files_dir():
+    import common
+    return os.path.join(common.REPO, "src", "psyclone", "tests", "test_files", "dynamo0p3")
+
+
+def parse_bundled(alg_file):
+    from psyclone.parse.algorithm import parse
+    d = test_files_dir()
+    _, info = parse(os.path.join(d, alg_file), api="dynamo0.3", kernel_paths=[d])
+    return info
+
+
+def parse_source(workdir, src, tag):
+    """src = {"alg_file": name} (bundled test algorithm) or {"kernels": [...], "calls": [...]} (synthesised)."""
+    if src.get("alg_file"):
+        return parse_bundled(src["alg_file"])
+    return parse_invoke(workdir, src["kernels"], [tuple(c) for c in src["calls"]], tag)
+
+
+def catalogue():
+    """Text scan (no parsing) of the bundled LFRic test files: for every algorithm file the feature classes of the
+    INC/READINC kernels it invokes.  Returns {alg_file: set(features)}."""
+    import re
+    d = test_files_dir()
+    feats = {}
+    for fn in sorted(os.listdir(d)):
+        if not re.search(r"_mod\.[fF]90$", fn):
+            continue
+        try:
+            txt = open(os.path.join(d, fn), errors="replace").read().lower()
+        except OSError:
+            continue
+        m = re.search(r"^\s*module\s+(\w+)", txt, re.M)
+        if not m or not re.search(r"gh_inc\b|gh_readinc\b", txt):
+            continue
+        f = set()
+        f.add("readinc" if "gh_readinc" in txt else "inc")
+        for st in STENCILS:
+            if re.search(r"stencil\(\s*%s\s*\)" % st, txt):
+                f.add("stencil_" + st)
+        if re.search(r"gh_field\s*\*\s*\d", txt):
+            f.add("vector")
+        if "gh_operator" in txt:
+            f.add("operator")
+        if "gh_columnwise_operator" in txt:
+            f.add("cma")
+        if "meta_funcs" in txt or "gh_shape" in txt:
+            f.add("basis")
+        for q in ("gh_quadrature_xyoz", "gh_quadrature_face", "gh_quadrature_edge", "gh_evaluator"):
+            if q in txt:
+                f.add(q)
+        if "meta_mesh" in txt:
+            f.add("mesh_property")
+        if "meta_reference_element" in txt or "meta_ref" in txt:
+            f.add("ref_element")
+        if "gh_coarse" in txt or "mesh_arg" in txt:
+            f.add("intergrid")
+        if "any_space_" in txt:
+            f.add("any_space")
+        if "gh_integer" in txt and "gh_field" in txt:
+            f.add("int_data")
+        if re.search(r"gh_scalar", txt):
+            f.add("scalar")
+        feats[m.group(1)] = f
+    algs = {}
+    for fn in sorted(os.listdir(d)):
+        if not re.match(r"\d.*\.[fF]90$", fn):
+            continue
+        try:
+            txt = open(os.path.join(d, fn), errors="replace").read().lower()
+        except OSError:
+            continue
+        fs = set()
+        for m in re.finditer(r"^\s*use\s+(\w+)", txt, re.M):
+            if m.group(1) in feats:
+                fs |= {m.group(1) + ":" + x for x in ()}  # placeholder (kernel identity not needed)
+                fs |= feats[m.group(1)]
+        if fs:
+            if re.search(r"\(\s*\w+\s*,\s*\w+\s*,\s*\d+\s*[,)]", txt):
+                fs.add("literal_extent_maybe")
+            algs[fn] = fs
+    return algs
+
+
+def select_bundled(algs, limit, rng=None):
+    """Greedy cover of all feature classes (deterministic), then random extras up to `limit`."""
+    chosen, covered = [], set()
+    universe = set().union(*algs.values()) if algs else set()
+    names = sorted(algs)
+    while covered != universe and len(chosen) < limit:
+        best = max(names, key=lambda n: (len(algs[n] - covered), -len(n), n) if n not in chosen else (-1, 0, n))
+        if not algs[best] - covered:
+            break
+        chosen.append(best)
+        covered |= algs[best]
+    rest = [n for n in names if n not in chosen]
+    if rng is not None:
+        rng.shuffle(rest)
+    chosen += rest[:max(0, limit - len(chosen))]
+    return chosen
 
 
 def make_psy(info, dm):
@@ -307,11 +435,12 @@ def colours_in_region(sched):
 # ---- one history step on the real schedule ---------------------------------------------
 def make_trans(name):
     from psyclone import transformations as T
-    from psyclone.psyir.transformations import ACCKernelsTrans
+    from psyclone.psyir.transformations import ACCKernelsTrans, OMPLoopTrans
     return {"colour": T.Dynamo0p3ColourTrans, "omp_parallel_do": T.DynamoOMPParallelLoopTrans,
             "omp_do": T.Dynamo0p3OMPLoopTrans, "omp_parallel": T.OMPParallelTrans,
             "acc_loop": T.ACCLoopTrans, "acc_parallel": T.ACCParallelTrans,
-            "acc_kernels": ACCKernelsTrans}[name]()
+            "acc_kernels": ACCKernelsTrans, "gen_omp_do": OMPLoopTrans,
+            "gen_omp_parallel_do": T.OMPParallelLoopTrans}[name]()
 
 
 def apply_step(sched, step):
@@ -345,3 +474,22 @@ def try_gen(psy):
         return "ok", None
     except GenerationError as e:
         return "refused", str(e.value)[:200]
+
+
+def da_assumption(sched):
+    """The assumption under which the model's ACCLoopTrans / generic OMP verdicts hold: for every loop over cells that is
+    not a 'colour' loop and has a shared-DoF increment, the generic dependence analysis answers False and does not raise.
+    Returns a list of descriptions of loops for which it is broken."""
+    from psyclone.domain.lfric import LFRicLoop
+    from psyclone.psyir.tools import DependencyTools
+    bad = []
+    for lp in sched.walk(LFRicLoop):
+        if lp.loop_type in ("colour", "colours", "null") or not shared_dof_increment(lp):
+            continue
+        try:
+            if DependencyTools().can_loop_be_parallelised(lp, test_all_variables=True):
+                bad.append(f"can_loop_be_parallelised returned True for the loop of kernel {lp.kernel.name}")
+        except Exception as e:   # noqa
+            bad.append(f"can_loop_be_parallelised raised {type(e).__name__}({str(e)[:80]}) for the loop of kernel "
+                       f"{lp.kernel.name}")
+    return bad
